@@ -63,6 +63,24 @@ def find_flags(cls: ClassInfo) -> Dict[str, dict]:
                     if e['dirty'] is None:
                         e['guards'].append((c, fn, node))
                 continue
+            # sentinel cache with an early return: `if self.X is not None: return self.X` … `self.X = <value>` later in the same block (the refresh is the rest of the block)
+            if isinstance(t, ast.Compare) and len(t.ops) == 1 and isinstance(t.ops[0], ast.IsNot) and self_attr(t.left) \
+                    and isinstance(t.comparators[0], ast.Constant) and t.comparators[0].value is None and any(isinstance(x, ast.Return) for x in node.body):
+                cname = self_attr(t.left)
+                parent = getattr(node, '_parent', None)
+                block = getattr(parent, 'body', []) if parent is not None else []
+                if node in block:
+                    rest = block[block.index(node) + 1:]
+                    fills = any(isinstance(st, ast.Assign) and any(self_attr(x) == cname for x in st.targets) and not (isinstance(st.value, ast.Constant) and st.value.value is None)
+                                for st in ast.walk(ast.Module(body=rest, type_ignores=[])))
+                    if fills and rest:
+                        synth = ast.If(test=t, body=rest, orelse=[])
+                        ast.copy_location(synth, node)
+                        synth._parent = parent
+                        e = flags.setdefault(cname, {'dirty': None, 'guards': []})
+                        if e['dirty'] is None:
+                            e['guards'].append((c, fn, synth))
+                continue
             if tested is None:
                 continue
             resets = False
